@@ -1,5 +1,6 @@
 #!/bin/bash
 # runs every registered quick check in sequence against /repo and prints exit code / wall time
+mkdir -p /tmp/scratch
 for p in C01 C02 C03 C04 C05 C06 C07 C08 C09 C10 C11 C12 C14 C15 C16 C17 C18 C19 C20; do
   s=$(date +%s)
   ./check $p --tier quick > /tmp/scratch/final_$p.log 2>&1; e=$?
